@@ -171,17 +171,63 @@ ASSIGN = [
 ]
 
 
+# Lines which are not the direct result of parsing, but are produced by a public operation from lines / a Gfa of
+# level k (the level contract of the property is per Gfa and per Line: such a line is a line of that level).
+#   cloned             line.clone() of the connected line (disconnected copy: every field is assignable)
+#   disconnected       the connected line after line.disconnect()
+#   merged             the segment created by Gfa.merge_linear_paths() from the record (first segment of a linear
+#                      path of two segments, all with a sequence);  merged-placeholder: no segment has a sequence
+#   multiplied         the copy of the record created by Gfa.multiply("A", 2) (segment copy, or copy of the link /
+#                      containment / edge of the multiplied segment)
+#   converted          the line of Gfa.to_gfa2() / Gfa.to_gfa1() which corresponds to the record (custom tags only:
+#                      positional fields and predefined tags are renamed / recomputed by the conversion)
+#   split-header       the single-tag header line of Gfa.headers which carries the tag
+DERIVED = ("cloned", "disconnected", "merged", "merged-placeholder", "multiplied", "converted", "split-header")
+MERGE_CTX = {"gfa1": (["S\tBm\tGT\tLN:i:2", "L\tA\t+\tBm\t+\t2M"], ["S\tBm\t*\tLN:i:2", "L\tA\t+\tBm\t+\t2M"]),
+             "gfa2": (["S\tBm\t3\tGTA", "E\t*\tA+\tBm+\t2\t4$\t0\t2\t2M"],
+                      ["S\tBm\t3\t*", "E\t*\tA+\tBm+\t2\t4$\t0\t2\t2M"])}
+
+
+def _custom_tags(text):
+    return [x[:2] for x in text.split("\t")[1:] if len(x) > 4 and x[2] == ":" and x[4] == ":" and x[:2].islower()]
+
+
+def mode_fields(rec, mode):
+    """The fields of the record which are assigned in the given mode ([]: the mode does not apply to the record)."""
+    rid, ver, text, ctx, fields, ro = rec
+    names = sorted(fields)
+    if mode == "standalone":
+        return names
+    if mode == "connected":
+        return [f for f in names if f not in ro]
+    if mode == "cloned":
+        return names
+    if mode == "disconnected":
+        return names if not rid.startswith("H") else []
+    if mode in ("merged", "merged-placeholder"):
+        return [f for f in names if f not in ro] if rid in ("S1", "S2") else []
+    if mode == "multiplied":
+        return [f for f in names if f not in ro] if rid in ("S1", "S2", "L1", "C1", "E1") else []
+    if mode == "converted":
+        if rid not in ("S1", "L1", "P1", "S2", "E1", "H1", "H2"):
+            return []
+        return [f for f in names if f not in ro and (f in _custom_tags(text) or f == "nw")]
+    if mode == "split-header":
+        return [f for f in names if f not in ro and (f in text or f == "nw")] if rid.startswith("H") else []
+    raise KeyError(mode)
+
+
 def _assign_space():
     sp = []
-    for ri, (rid, ver, line, ctx, fields, ro) in enumerate(ASSIGN):
-        for f in sorted(fields):
-            for mode in ("standalone", "connected"):
-                if mode == "connected" and f in ro:
-                    continue
-                for via in ("set", "attr"):
-                    if via == "attr" and f == "nw":
-                        continue
-                    sp.append((ri, f, mode, via))
+    # the two original modes first: the index of an exhaustive case is stable
+    for modes in (("standalone", "connected"), DERIVED):
+        for ri, rec in enumerate(ASSIGN):
+            for mode in modes:
+                for f in mode_fields(rec, mode):
+                    for via in ("set", "attr"):
+                        if via == "attr" and f == "nw":
+                            continue
+                        sp.append((ri, f, mode, via))
     return sp
 
 
@@ -279,6 +325,37 @@ def _canon_obs(o):
     return out
 
 
+def _render(gfapy, v):
+    """A field value as seen through the public API: (type name, text); lines referenced by a field are named."""
+    if isinstance(v, gfapy.Line):
+        n = None
+        if v.record_type in "SEGOUP":
+            try:
+                n = v.get("name")
+            except Exception:  # noqa
+                n = None
+        return ("line", v.record_type, str(n) if n is not None else D.canon_delayed(lib.wl(v)))
+    if isinstance(v, gfapy.OrientedLine):
+        return ("OrientedLine", _render(gfapy, v.line), str(v.orient))
+    if isinstance(v, (list, tuple)) and not isinstance(v, (gfapy.NumericArray, gfapy.ByteArray, gfapy.CIGAR, gfapy.Trace)):
+        return (type(v).__name__, [_render(gfapy, x) for x in v])
+    return (type(v).__name__, str(v))
+
+
+def _read_all(gfapy, g):
+    """Reads every field of every line with line.get (what any analysis of the graph does); returns the values."""
+    out = []
+    for l in g.lines:
+        row = [l.record_type]
+        for fn in list(l.positional_fieldnames) + list(l.tagnames):
+            row.append((fn, _render(gfapy, l.get(fn))))
+        out.append(row)
+    return out
+
+
+PARTS = ["text", "obs", "read", "text-after-read", "obs-after-read"]
+
+
 def oracle_levels(case):
     gfapy = lib.import_gfapy()
     lines, ver = case["lines"], case["ver_param"]
@@ -296,33 +373,64 @@ def oracle_levels(case):
         except Exception as e:  # noqa
             F.append("write-raises-at-level[%s]: level %d: %s" % (e.__class__.__name__, k, str(e).split("\n")[0][:100]))
             continue
-        res[k] = (t, o)
+        try:
+            rd = _read_all(gfapy, g)
+        except Exception as e:  # noqa
+            F.append("read-raises-at-level[%s]: level %d: %s" % (e.__class__.__name__, k, str(e).split("\n")[0][:100]))
+            continue
+        try:
+            t2 = str(g)
+            o2 = lib.obs(g)
+        except Exception as e:  # noqa
+            F.append("write-raises-at-level[%s]: level %d, after all fields have been read: %s"
+                     % (e.__class__.__name__, k, str(e).split("\n")[0][:100]))
+            continue
+        res[k] = (t, o, rd, t2, o2)
     if F or len(res) < 2:
         return F
     ks = sorted(res)
     base = ks[-1]
-    literal_diff = [k for k in ks if res[k][0] != res[base][0] or res[k][1] != res[base][1]]
+    literal_diff = [k for k in ks if res[k] != res[base]]
     if not literal_diff:
         return []
-    canon = {k: ([D.canon_delayed(x) for x in res[k][0].split("\n")], _canon_obs(res[k][1])) for k in ks}
-    canon_diff = [k for k in ks if canon[k] != canon[base]]
+
+    def canon(r):
+        cl = lambda t: [D.canon_delayed(x) for x in t.split("\n")]
+        return (cl(r[0]), _canon_obs(r[1]), r[2], cl(r[3]), _canon_obs(r[4]))
+
+    cres = {k: canon(res[k]) for k in ks}
+    canon_diff = [k for k in ks if cres[k] != cres[base]]
     if not canon_diff and literal_diff == [0]:
-        a, b = res[0][0].split("\n"), res[base][0].split("\n")
-        d = [(x, y) for x, y in zip(a, b) if x != y][:1]
+        for i in (0, 3):
+            a, b = res[0][i].split("\n"), res[base][i].split("\n")
+            d = [(x, y) for x, y in zip(a, b) if x != y][:1]
+            if d:
+                break
         return ["lazy-spelling: level 0 writes %r, levels >= 1 write %r" % (d[0] if d else ("<observation>", ""))]
     # real differences first; a spelling-only difference at level 0 next to a real one is not reported separately
     order = [k for k in literal_diff if k in canon_diff] or [k for k in literal_diff if k != 0] or literal_diff
     k = order[0]
-    what = "text" if res[k][0] != res[base][0] else "obs"
-    if what == "text":
-        a, b = res[k][0].split("\n"), res[base][0].split("\n")
+    real = k in canon_diff
+    A, B = (cres[k], cres[base]) if real else (res[k], res[base])
+    i = [j for j in range(len(PARTS)) if A[j] != B[j]][0]
+    what = PARTS[i]
+    a, b = res[k][i], res[base][i]
+    if i in (0, 3):
+        a, b = a.split("\n"), b.split("\n")
         d = [(x, y) for x, y in zip(a, b) if x != y][:1] or [("%d lines" % len(a), "%d lines" % len(b))]
         det = "%r vs %r" % d[0]
+    elif i == 2:
+        d = [(x, y) for x, y in zip(a, b) if x != y][:1] or [("%d lines" % len(a), "%d lines" % len(b))]
+        x, y = d[0]
+        if isinstance(x, list) and len(x) == len(y):
+            fd = [(p, q) for p, q in zip(x[1:], y[1:]) if p != q][:1]
+            det = "%s line: get(%r) -> %r vs %r" % (x[0], fd[0][0][0], fd[0][0][1], fd[0][1][1]) if fd else "%r vs %r" % (x, y)
+        else:
+            det = "%r vs %r" % (x, y)
     else:
-        keys = [x for x in res[k][1] if res[k][1][x] != res[base][1][x]]
+        keys = [x for x in a if a[x] != b[x]]
         det = "observation differs in %s" % keys
-    F.append("levels-differ-%s%s: level %d vs level %d: %s" % (what, "" if k in canon_diff else "-spelling-only",
-                                                             k, base, det))
+    F.append("levels-differ-%s%s: level %d vs level %d: %s" % (what, "" if real else "-spelling-only", k, base, det))
     return F
 
 
@@ -368,12 +476,7 @@ def mk(gfapy, spec):
     return spec
 
 
-def make_line(gfapy, rec, mode, level):
-    rid, ver, text, ctx, fields, ro = rec
-    if mode == "standalone":
-        return gfapy.Line(text, vlevel=level, version=ver if not text.startswith("#") else None)
-    g = gfapy.Gfa(ctx + [text], vlevel=level, version=ver)
-    rt = text.split("\t")[0]
+def _pick(g, rt, text):
     if rt == "H":
         return g.header
     if rt.startswith("#"):
@@ -381,7 +484,57 @@ def make_line(gfapy, rec, mode, level):
     cands = [l for l in g.lines if l.record_type == rt and not l.virtual]
     if rt == "S":
         cands = [l for l in cands if l.name == text.split("\t")[1]]
-    ln = cands[-1]
+    return cands[-1]
+
+
+def make_line(gfapy, rec, mode, level, field=None):
+    """The line under test: built from the text of the record at the given level, by parsing (stand-alone or in a
+    Gfa) or by a public operation on the parsed lines (modes DERIVED)."""
+    rid, ver, text, ctx, fields, ro = rec
+    if mode == "standalone":
+        return gfapy.Line(text, vlevel=level, version=ver if not text.startswith("#") else None)
+    rt = text.split("\t")[0]
+    if mode in ("merged", "merged-placeholder"):
+        ph = mode == "merged-placeholder"
+        if ph:
+            text = text.replace("\tACGT", "\t*", 1)
+        g = gfapy.Gfa([text] + MERGE_CTX[ver][1 if ph else 0], vlevel=level, version=ver)
+        g.merge_linear_paths()
+        ln = g.segment("A_Bm")
+        if ln is None or len(g.segments) != 1:
+            raise RuntimeError("merge_linear_paths did not merge A and Bm: %r" % [str(x) for x in g.segments])
+        ln._c18_keepalive = g
+        return ln
+    if mode == "converted" and ver == "gfa1":
+        ctx = [c + "\tLN:i:4" if c.startswith("S\t") and "LN:i:" not in c else c for c in ctx]
+    g = gfapy.Gfa(ctx + [text], vlevel=level, version=ver)
+    if mode == "multiplied":
+        g.multiply("A", 2)
+        if rt == "S":
+            ln = g.segment("A*2")
+        else:
+            ln = [l for l in g.lines if l.record_type == rt and not l.virtual
+                  and any(x.rstrip("+-") == "A*2" for x in str(l).split("\t")[1:4])][-1]
+        ln._c18_keepalive = g
+        return ln
+    if mode == "converted":
+        g2 = g.to_gfa2() if ver == "gfa1" else g.to_gfa1()
+        if rt == "H":
+            return g2.header
+        marker = _custom_tags(text)[0]
+        ln = [l for l in g2.lines if l.record_type != "H" and not l.virtual and marker in l.tagnames][-1]
+        ln._c18_keepalive = g2
+        return ln
+    if mode == "split-header":
+        hs = g.headers
+        f = field if field is not None and field != "nw" else _custom_tags(text)[0]
+        return [h for h in hs if f in h.tagnames][-1]
+    ln = _pick(g, rt, text)
+    if mode == "cloned":
+        return ln.clone()
+    if mode == "disconnected":
+        ln.disconnect()
+        return ln
     ln._c18_keepalive = g  # keep the Gfa referenced (plain attribute, not a field)
     return ln
 
@@ -408,7 +561,7 @@ def oracle_assign(case):
     for kind, spec in values:
         for level in (0, 1, 2, 3):
             def fresh():
-                return make_line(gfapy, rec, case["mode"], level)
+                return make_line(gfapy, rec, case["mode"], level, f)
 
             def assign(line):
                 v = mk(gfapy, spec)
